@@ -547,6 +547,45 @@ func agreeDecode(r *engine.Run, rule string) {
 	}
 	r.Check(linked, rule, fn(f)+"|child slots", r.P.Pos(f.Pos()), "every accepted child entry of a persisted branch is stored into a child slot",
 		"a child entry of a persisted branch is accepted but not stored into the decoded branch: the loaded branch lacks a child its hash commits to")
+	// (2b) a decoded shared-prefix node always has a value: what is stored into
+	// shortNode.value by the decoder is a freshly built reference, or a result that
+	// tested non-nil on every path to the store
+	for _, g := range opGroup(r, r.Fn(rule, pkgWMPT, "", "DeserializeNode")) {
+		if g == nil {
+			continue
+		}
+		o := ord{}
+		engine.Instrs(g, func(in ssa.Instruction) {
+			st, ok := in.(*ssa.Store)
+			if !ok {
+				return
+			}
+			fa, ok := st.Addr.(*ssa.FieldAddr)
+			if !ok || engine.FieldOf(fa) == nil || engine.FieldOf(fa).Name() != "value" {
+				return
+			}
+			if nm := namedOf(fa.X.Type()); nm == nil || nm.Obj().Name() != "shortNode" {
+				return
+			}
+			good := false
+			if mi, ok := st.Val.(*ssa.MakeInterface); ok {
+				if _, isAlloc := mi.X.(*ssa.Alloc); isAlloc {
+					good = true
+				}
+			}
+			if !good {
+				if facts, ok := engine.FactsOn(g, st.Block()); ok {
+					for _, ft := range facts {
+						if ft.Kind == "eq" && !ft.Truth && ((sameVal(ft.A, st.Val) && nilConst(ft.B)) || (sameVal(ft.B, st.Val) && nilConst(ft.A))) {
+							good = true
+						}
+					}
+				}
+			}
+			r.Check(good, rule, o.next(fn(g)+"|short value set"), r.P.Pos(st.Pos()), "the decoded shared-prefix node gets a value that is not nil",
+				"a decoded shared-prefix node can get a nil value (the stored result is neither freshly built nor tested non-nil): Serialize, Weight and the walks dereference it - accepted bytes that panic on re-encoding")
+		})
+	}
 	// (3) the shared-prefix node persists its value's hash and weight
 	if g := r.Fn(rule, pkgWMPT, "shortNode", "Serialize"); g != nil {
 		hashCopied, weightPut := false, false
